@@ -225,7 +225,7 @@ PROPS = {
                 "the retried transaction being read back in full through the same handle. "
                 "non-trivial = history with at least one rolled-back transaction whose before/after state was compared.",
         "run": generic(thorough_profiles=("verif-rel",), env=SHIM_ENV, pre=build_shim),
-        "floors": {"any": {"opens_of_a_database_with_one_unusable_header_page(bytes compared)": 200, "rollbacks_checked(file bytes + shared state)": 50, "twin_runs": 20, "read_only_mutator_calls": 500,
+        "floors": {"any": {"opens_of_a_database_with_0.10_layout_headers(bytes compared)": 30, "opens_of_a_database_with_one_unusable_header_page(bytes compared)": 200, "rollbacks_checked(file bytes + shared state)": 50, "twin_runs": 20, "read_only_mutator_calls": 500,
                            "error_returning_calls_followed_by_full_verification": 50,
                            "commits_failed_by_injected_write_error_and_checked_for_traces": 20,
                            "failed_commits_that_had_extended_the_file(write_and_mmap_faults)": 50, "error_only_transactions_compared_with_an_empty_commit": 100}},
@@ -394,7 +394,7 @@ PROPS = {
                        "memcheck. 'All programs' is out of reach: the corpus is finite and recipe-driven; the public API surface is enumerated from "
                        "rustdoc JSON only to report which items the corpus does not exercise.",
         "run": c14mod.run,
-        "floors": {"any": {"reject_programs_rejected": 100, "twin_programs_compiled": 30, "accept_programs_compiled": 5, "probe_runs_clean": 50, "corpus_speculative_programs": 100}},
+        "floors": {"any": {"reject_programs_rejected": 100, "twin_programs_compiled": 30, "accept_programs_compiled": 15, "probe_runs_clean": 50, "corpus_speculative_programs": 100}},
         "assumptions": ["rustc's verdict on the corpus program is taken as the observation of 'is a compile-time error'",
                         "the corpus is finite; escape routes it does not contain are not judged"],
         "crash_is_violation": False,
